@@ -386,7 +386,41 @@ func build(e *env) (post func() string) {
 		for i := range ins {
 			ins[i] = e.in[i]
 		}
+		aliased := sc.N > 0 && nIn >= 2 // the same channel handed to Join twice: two copiers share one input
+		if aliased {
+			ins[nIn-1] = e.in[0]
+		}
 		p := intPort("join", pipe.Join(ctx, ins...))
+		// the caller re-uses its slice of channels once Join has returned
+		for i := range ins {
+			ins[i] = nil
+		}
+		if aliased {
+			all := append([]int{}, sc.In[0]...)
+			for i := 1; i < nIn-1; i++ {
+				all = append(all, sc.In[i]...)
+			}
+			mv := e.multisetValidator("join (one channel passed twice)", all, false)
+			p.validate = func(p *port, final bool) string {
+				if m := mv(p, false); m != "" {
+					return m
+				}
+				if final {
+					// the last declared input is never read: only inputs 0..k-2 count
+					for i := 0; i < nIn-1; i++ {
+						if !e.closedIn[i] {
+							return fmt.Sprintf("join: output closed while input %d was still open", i)
+						}
+					}
+					if len(p.delivered) != len(all) {
+						return fmt.Sprintf("join (one channel passed twice): closed after delivering %v (sorted), inputs carried %v", sorted(p.delivered), sorted(all))
+					}
+				}
+				return ""
+			}
+			e.ports = []*port{p}
+			return nil
+		}
 		p.validate = func(p *port, final bool) string {
 			// elements are tagged input*1000+seq: per-input subsequences must be prefixes of what was accepted
 			per := make([][]int, nIn)
